@@ -1633,6 +1633,23 @@ void process_header_to_links(mmd_engine * e, token * h) {
 	// See if we have a manual label
 	token * manual = manual_label_from_header(h, e->dstr->str);
 
+	// The underline of a Setext header is not part of its title (see label_from_header)
+	size_t full_len = h->len;
+
+	if (!manual && h->child && h->child->tail) {
+		switch (h->child->tail->type) {
+			case MARKER_SETEXT_1:
+			case MARKER_SETEXT_2:
+				h->len = h->child->tail->start - h->start;
+				break;
+
+			default:
+				break;
+		}
+	}
+
+	token * header = h;
+
 	if (manual) {
 		label = label_from_token(e->dstr->str, manual);
 		h = manual;
@@ -1645,6 +1662,8 @@ void process_header_to_links(mmd_engine * e, token * h) {
 	d_string_append(url, label);
 
 	link * l = link_new(e->dstr->str, h, url->str, NULL, NULL, LINK_AUTO);
+
+	header->len = full_len;
 
 	// Store link for later use
 	stack_push(e->link_stack, l);
